@@ -54,6 +54,8 @@ def setup3(c, bk, traits, L, rng, aux_traits=None):
     """v0: the vector under test with L elements; v1: same type, 2 elements; v2: other type, 1 element"""
     at = aux_traits or ("clone" if "clone" in traits else traits)
     aux_bk = "heap"
+    cap = kind_cap(bk, c.size)
+    assert cap is None or L <= cap, "generator: %d elements do not fit the fixed capacity %d of %s (element size %d)" % (L, cap, bk, c.size)
     v0 = c.new(0, bk, traits); v1 = c.new(0, aux_bk, at); v2 = c.new(1, aux_bk, at)
     fill(c, v0, L, rng); fill(c, v1, 2, rng)
     c.add("push %d w1" % v2)
